@@ -59,11 +59,12 @@ type State struct {
 	ghost map[string]string
 	nonNil map[string]bool
 	symHeaps map[string]bool // non-nil: heaps are bound variables (recursive predicate definitions)
+	hver int // heap version: bumped on every heap write/havoc (keys uninterpreted spec functions of heap-dependent values)
 }
 
 func (s *State) clone() *State {
 	n := &State{cells: make(map[cellKey]Val, len(s.cells)), heaps: make(map[string]string, len(s.heaps)),
-		heapT: s.heapT, nr: s.nr, pc: s.pc, ghost: make(map[string]string, len(s.ghost))}
+		heapT: s.heapT, nr: s.nr, pc: s.pc, ghost: make(map[string]string, len(s.ghost)), hver: s.hver}
 	for k, v := range s.cells {
 		n.cells[k] = v
 	}
@@ -123,7 +124,13 @@ func (x *Exec) heap0(t types.Type) string {
 	return name
 }
 
+func (x *Exec) bumpHeapVersion(st *State) {
+	x.hverCounter++
+	st.hver = x.hverCounter
+}
+
 func (x *Exec) setHeap(st *State, t types.Type, term string) {
+	x.bumpHeapVersion(st)
 	k := x.te.HeapKey(t)
 	x.heapTypes[k] = t
 	st.heaps[k] = x.S.Define("h", x.te.HeapSort(t), term)
@@ -292,6 +299,15 @@ func (x *Exec) merge(ins []*State) *State {
 			}
 		}
 		out.heaps[k] = mergeTerms(x.te.HeapSort(x.heapTypes[k]), ts)
+	}
+	// heap version
+	out.hver = ins[0].hver
+	for _, s := range ins[1:] {
+		if s.hver != out.hver {
+			x.hverCounter++
+			out.hver = x.hverCounter
+			break
+		}
 	}
 	// known non-nil regions: intersection
 	for k := range ins[0].nonNil {
